@@ -42,6 +42,31 @@ add("C17", "other",
     "operator left. Semantic equality of both forms is decided by z3 translation validation on mixed-form programs.",
     "symbolic execution of the real code (CrossHair -> z3) + SMT translation validation (z3)", "S+T", "DESIGN.md 3/C17", S_NOTE)
 
+add("C07", "other",
+    "Bounded symbolic execution (CrossHair/z3) of the type follower's call normalisation: number of defaults, positional count, keyword mask, keyword "
+    "order, argument values and declared default values (unbounded ints) are solver variables, for signatures with 1..3 parameters at 7 call-site "
+    "positions (depths 0..2, dictionary field, registered collection class, registered functions); oracle is inspect.Signature.bind.",
+    "symbolic execution of the real code (CrossHair -> z3), per-partition 'confirmed over all paths'", "S", "DESIGN.md 3/C07", S_NOTE)
+add("C13", "other",
+    "Bounded symbolic execution (CrossHair/z3) of every value-embedding entry point. Values embedded as ast.Constant (defaults, captured variables) are "
+    "fully symbolic (unbounded int, str/bytes len<=3, float, bool); values that travel as text through CPython's C parser are case-split over a "
+    "20-character class alphabet (len<=2 quick, <=3 thorough) and edge tables. Oracle: ast.literal_eval returns an equal value of the same type.",
+    "symbolic execution of the real code (CrossHair -> z3), per-partition 'confirmed over all paths'", "S", "DESIGN.md 3/C13", S_NOTE)
+add("C14", "other",
+    "Bounded symbolic execution (CrossHair/z3) of the real simplifier on 7 packaging kinds x 6 consumer chains x 3 binder naming schemes with symbolic "
+    "tuple arity, projection index and dictionary key strings; oracle: no tuple/list/dict construction and no constant projection is left outside the final result.",
+    "symbolic execution of the real code (CrossHair -> z3), per-partition 'confirmed over all paths'", "S", "DESIGN.md 3/C14", S_NOTE)
+add("C18", "other",
+    "Bounded symbolic execution (CrossHair/z3) of the real simplifier on literal projections with a symbolic selector (8 selector kinds, int in [-5,5], any "
+    "str len<=2) in 4 positions x 5 container kinds: the result must compile/unparse or be the dedicated index error exactly when allowed. Semantic "
+    "intactness of the untouched sub-expression is decided by z3 translation validation.",
+    "symbolic execution of the real code (CrossHair -> z3) + SMT translation validation (z3)", "S+T", "DESIGN.md 3/C18", S_NOTE)
+add("C20", "other",
+    "Bounded symbolic execution (CrossHair/z3) of calc_ast_hash on pairs (A,B) where B is derived from A by a solver-split relation (rebuild, text round trip, "
+    "non-field annotations, one of 8 single edits, same edit on both); hashes must be equal iff structurally identical. Leaves are bounded and case-split "
+    "(repr/md5 are C code). Cross-process stability and the three ways of supplying a lambda are checked concretely per run.",
+    "symbolic execution of the real code (CrossHair -> z3), per-partition 'confirmed over all paths'", "S", "DESIGN.md 3/C20", S_NOTE)
+
 NOT_YET = {}
 
 
